@@ -255,10 +255,13 @@ func faults(args []string) {
 			return
 		}
 		obs := drive.RunFaulted(b.env, b.snap, b.obs, "fw", rq, c.At, c.Kind, false, true)
-		obs.StateIdx = []int{}
+		obs.StateIdx, obs.RowsIdx = []int{}, []int{}
 		for j, h := range b.prog[di].Hashes {
 			if h == obs.Hash {
 				obs.StateIdx = append(obs.StateIdx, j)
+			}
+			if j < len(b.prog[di].Counts) && b.prog[di].Counts[j] == obs.Counts {
+				obs.RowsIdx = append(obs.RowsIdx, j)
 			}
 		}
 		results[i].Obs = obs
